@@ -61,7 +61,7 @@ def describe(rep):
     rep.assume('restart requests are injected by a harness convergence controller (control order 90) when iter >= maxiter',
                'fixed exactly representable dt in (b) so that accepted start times are exact', 'beta <= 1 (beta < 1 for the strict retry-with-smaller-step clause), e_est > 0, e_tol > 0 in (c)', 'factor_if_not_converged > 1, residual_max_tol > restol (sensible configuration)')
     rep.out_of_scope('error estimators themselves (numerical quantities)', 'EstimateContractionFactor (its outputs are symbolic inputs of the avoid_restarts rule), StepSizeRounding (rounds by powers of ten through log10), interpolation between restarts beyond the listed histories', 'MPI flavours',
-                     'NP > 4, more than 6 steps, max_restarts > 3 in (b)', '(d): at most N = 2..3 accepted steps (Tend - t0 <= N dt_min), order 1 (2 in the thorough tier), beta = 9/10, e_tol = 1, estimates > 1/1000')
+                     'NP > 4, more than 6 steps, max_restarts > 3 in (b)', '(d): at most N = 2 accepted steps (Tend - t0 <= 2 dt_min; N = 3 does not finish), order 1 (2 in the thorough tier), beta = 9/10, e_tol = 1, estimates > 1/1000')
 
 
 def tasks(tier, seed):
@@ -84,7 +84,7 @@ def tasks(tier, seed):
     T.append(('adapt_avoid',))
     for which in ('poly', 'extra', 'coll'):
         T.append(('adapt_conv', which))
-    for a in ([(1, 1, True, 2, 1), (1, 1, False, 2, 1), (2, 1, True, 2, 1)] if quick else [(1, 1, True, 2, 1), (1, 1, False, 2, 1), (2, 1, True, 2, 1), (1, 2, True, 2, 1), (2, 1, False, 3, 1), (1, 1, True, 3, 1), (3, 1, True, 3, 1), (1, 1, True, 2, 2)]):
+    for a in ([(1, 1, True, 2, 1), (1, 1, False, 2, 1), (2, 1, True, 2, 1)] if quick else [(1, 1, True, 2, 1), (1, 1, False, 2, 1), (2, 1, True, 2, 1), (1, 2, True, 2, 1), (2, 1, False, 2, 1), (3, 1, True, 2, 1), (1, 1, True, 2, 2)]):  # (three accepted steps, N = 3, do not finish: > 7 min of exploration per configuration)
         T.append(('adrun',) + a)
     hist = [(1, 2, 3, False, True), (2, 1, 4, False, True), (2, 2, 4, False, True), (2, 2, 4, True, True), (2, 1, 4, False, False),
             (3, 1, 4, False, True), (3, 2, 5, False, True), (3, 2, 4, True, True)] if quick else \
